@@ -205,7 +205,7 @@ impl Job {
         match (&self.payload, self.aux[3], self.version, self.level) {
             (Some(p), _, _, _) => p.clone(),
             // crafted payloads (see craft.rs): aux[3] = 1 matrix target aux[0]; aux[3] = 2 codeword shape aux[0]
-            (None, CRAFT_TARGET, Some(v), Some(l)) => crate::craft::payload_for_target(v, l, self.aux[0] as usize),
+            (None, CRAFT_TARGET, Some(v), Some(l)) => crate::craft::payload_for_target(v, l, self.aux[0] as usize, self.seed, if self.aux[1] > 0 { Some(self.aux[1] as usize - 1) } else { None }),
             (None, CRAFT_SHAPE, Some(v), Some(l)) => crate::craft::payload_for_shape(v, l, self.aux[0] as usize, self.seed),
             _ => gen_payload(self.class, self.len, self.gen, self.seed),
         }
